@@ -1356,12 +1356,15 @@ class Scene(Geometry3D):
         else:
             # otherwise get a copy of the camera
             camera = self.camera.copy()
+        # only lights which were set or generated already
+        lights = getattr(self, "_lights", None)
         # create a new scene with copied geometry and graph
         copied = Scene(
             geometry=geometry,
             graph=self.graph.copy(),
             metadata=deepcopy(self.metadata),
             camera=camera,
+            lights=None if lights is None else deepcopy(lights),
         )
         return copied
 
